@@ -199,17 +199,6 @@ Fixpoint tv_same (a b : tv) {struct a} : bool :=
 
 (** ** known-finding classes (narrow, computed from the input only) *)
 
-Definition tvs_exists (f : tv -> bool) : list tv -> bool :=
-  fix go l := match l with [] => false | x :: l' => f x || go l' end.
-
-(** a nil message somewhere in the value *)
-Fixpoint has_nil (t : tv) : bool :=
-  match t with
-  | TVnil | TVDecimalNil | TVLeaflistNil => true
-  | TVLeaflist l => tvs_exists has_nil l
-  | _ => false
-  end.
-
 Definition utf8_all (l : list string) : bool := forallb utf8_valid l.
 
 Definition jv_of (valid : list string) (s : string) : bool := existsb (String.eqb s) valid.
